@@ -13,6 +13,9 @@ Header choice (`DBInner::meta`, modelled by `slotValid` / `selectSlots` / `openA
   needed for single-byte damage because every FNV-1a step is a bijection;
 * the snapshot a commit replaced is not reused before the next writer begins, so the state the other
   header names is complete (`previous_snapshot_intact`).
+* the header page a commit writes is read back as exactly the record written, is valid, and nothing outside
+  that page is touched, so the other header is as it was (`written_header_reads_back`,
+  `written_header_is_valid`, `header_write_is_local`);
 Multi-byte damage is covered under the explicit hypothesis that the damaged record's checksum does not
 collide (evaluated, not assumed, for every image the correspondence run creates).
 -/
@@ -21,6 +24,7 @@ import Jamm.Gen.Layout
 import Jamm.Gen.HashOrder
 import Jamm.Proofs.HashLemmas
 import Jamm.Proofs.PrevSnapLemmas
+import Jamm.Proofs.EncodeMetaLemmas
 set_option linter.unusedSectionVars false
 
 namespace Jamm.Props.C12
@@ -124,5 +128,30 @@ theorem hash_covers : Pinned.semanticFields.all (fun f => Gen.hashOrder.contains
 
 /-- the generated layout keeps the page-type byte and the record inside the first 112 bytes -/
 theorem record_location : Gen.layout.pgType = 8 ∧ Gen.layout.pgPtr = 32 ∧ Gen.layout.metaSize = 72 := by decide
+
+/-! ### the header writer (`TxInner::write_data`, modelled by `writeMetaPage`) -/
+
+theorem layout_fit_for_header_roundtrip : Layout.WFMeta Gen.layout = true := by decide
+
+/-- the header page written for `slot` decodes to exactly the record written -/
+theorem written_header_reads_back (pagesize slot : Nat) (m : MetaRec) (s : Src)
+    (hfile : slot * pagesize + pagesize ≤ s.size)
+    (hrec : Gen.layout.pgPtr + Gen.layout.metaSize ≤ pagesize) (hhdr : Gen.layout.pageSize ≤ pagesize)
+    (hslot : slot < 2 ^ 64) (hm : m.fits Gen.layout = true) :
+    decodePage Gen.layout (writeMetaPage Gen.layout pagesize slot m s) pagesize slot =
+      .ok { id := slot, overflow := 0, count := 0, body := .hdr m } :=
+  decode_writeMetaPage Gen.layout layout_fit_for_header_roundtrip pagesize slot m s hfile hrec hhdr hslot hm
+
+/-- a record sealed with its checksum is valid -/
+theorem written_header_is_valid (m : MetaRec) :
+    metaValid Gen.layout Gen.hashOrder (MetaRec.seal Gen.layout Gen.hashOrder m) = true :=
+  seal_valid Gen.layout Gen.hashOrder m
+
+/-- writing one header page changes no byte of any other page — in particular not the other header -/
+theorem header_write_is_local (pagesize slot : Nat) (m : MetaRec) (s : Src) (i : Nat)
+    (hrec : Gen.layout.pgPtr + Gen.layout.metaSize ≤ pagesize)
+    (h : i < slot * pagesize ∨ slot * pagesize + pagesize ≤ i) :
+    (writeMetaPage Gen.layout pagesize slot m s).get i = s.get i :=
+  (writeMetaPage_frame Gen.layout pagesize slot m s i layout_fit_for_header_roundtrip hrec h).1
 
 end Jamm.Props.C12
